@@ -58,7 +58,13 @@ def run_impl(case):
                 fr = np.uint64(fr)
             if nt == "w32" and -(1 << 31) <= w < (1 << 31):
                 w = np.int32(w)
-            if case.get("ctor"):
+            if case.get("ctor") == "dec9":
+                # TimeDelta(Decimal("<w-1>.99999...")): the fraction is nearer to a whole second than to the largest
+                # uint64 fraction, so it carries: the same value as from_tuple((w, 0)), OverflowError included
+                import decimal
+                body = "%d.%s" % (abs(w) - 1, "9" * case.get("nines", 25))
+                v = bt.TimeDelta(decimal.Decimal(body if w > 0 else "-" + body))
+            elif case.get("ctor"):
                 # TimeDelta(<integer seconds>): the same value as from_tuple((seconds, 0))
                 v = bt.TimeDelta(w)
             else:
@@ -97,6 +103,15 @@ def run_impl(case):
             out = [x.ticks for x in a]
         elif path == "setslice":
             a = A([X.from_ticks(0) for _ in xs]); a[:] = xs; out = [x.ticks for x in a]
+        elif path == "setslice_self":
+            # the array assigned into a slice of itself: the values read are those it held before the assignment
+            a = A(xs)
+            i = case.get("i", 1) % (len(xs) + 1)
+            j = min(len(xs), i + case.get("sw", 1))
+            want = xs[:i] + xs + xs[j:]
+            a[i:j] = a
+            got = [x.ticks for x in a]
+            out = [x.ticks for x in xs] if got == [x.ticks for x in want] else got + [12345]
         elif path == "insert":
             a = A()
             for i, x in enumerate(xs):
@@ -215,14 +230,20 @@ def gen_cases(rng, tier):
         cases.append({"k": "from_tuple", "dt": False, "w": w, "f": 0, "ctor": True, "np": rng.choice([None, "w", "w", "w32"])})
     # arrays
     inr = battery(False)
-    paths = ["iter", "index", "negindex", "slice", "setitem", "setslice", "insert", "extend", "append", "pickle", "deepcopy",
+    paths = ["iter", "index", "negindex", "slice", "setitem", "setslice", "setslice_self", "setslice_self", "insert", "extend", "append", "pickle", "deepcopy",
              "ctor_from_array_write_copy", "ctor_from_array_write_orig", "ctor_from_iter_write"]
     for _ in range(250 if tier == "quick" else 6000):
         n = rng.choice([0, 1, 1, 2, 3, 5, 8])
         l = [rng.choice(inr) if rng.random() < 0.5 else rand128(rng) for _ in range(n)]
         dt = rng.random() < 0.5
         cases.append({"k": "array_bytes", "dt": dt, "l": l})
-        cases.append({"k": "array_items", "dt": dt, "l": l, "path": rng.choice(paths), "proto": rng.choice([2, 3, 4, 5])})
+        cases.append({"k": "array_items", "dt": dt, "l": l, "path": rng.choice(paths), "proto": rng.choice([2, 3, 4, 5]),
+                      "i": rng.randrange(0, 9), "sw": rng.choice([0, 1, 1, 2])})
+    # Decimal seconds whose fraction rounds up to the next whole second
+    for _ in range(80 if tier == "quick" else 1500):
+        w = rng.choice([1, -1, 2, -2, 86400, (1 << 63) - 1, 1 << 63, -(1 << 63), -(1 << 63) - 1, (1 << 63) - 2,
+                        rng.randrange(1, 1 << 63), -rng.randrange(1, 1 << 63)])
+        cases.append({"k": "from_tuple", "dt": False, "w": w, "f": 0, "ctor": "dec9", "nines": rng.choice([20, 21, 25, 30, 40])})
     return cases
 
 
